@@ -675,6 +675,15 @@ OK_DEF = ("fun c : tree * formula atom * res TV * res bool * bool * bool => "
           "res_eqb tv_eqb (m_evaluate T CST f) ev && res_eqb Bool.eqb (m_check T CST f) ck "
           "&& (negb cmp_spec || Bool.eqb (s_sat T CST f) sp)")
 CST_DEF = f"Definition CST := {g_var(START)}.\n"
+# hypotheses of C03_eval_correct_mexpr (Props/C03.v) as the verified boolean `mexpr_guard`
+# (EvalMexprCheck.v), evaluated on the INSTANTIATED formula; `mismatches` lists the cases where
+# ok_fn is false, i.e. where the guard HOLDS
+GUARD_IMPORTS = "EvalAtoms EvalFacts EvalMexprCheck"
+GUARD_DEF = ("fun c : tree * formula atom * res TV * res bool * bool * bool => "
+             "let '(T, f, ev, ck, sp, cmp_spec) := c in "
+             "negb (match (if existsb (var_eqb CST) (fvars atom atom_free f) "
+             "then inst_const atom atom_inst T CST f else Ok f) with "
+             "Ok f' => mexpr_guard T f' | Raise _ => false end)")
 
 
 def run(run):
@@ -703,6 +712,7 @@ def run(run):
     n_formulas = 40 if thorough else 8          # per grammar
     n_trees = 20 if thorough else 8             # per grammar
     shards, smeta = [], []
+    gshards, gmeta = [], []     # match-expression cases, for the guard of C03_eval_correct_mexpr
     hist = {"TT": 0, "FF": 0, "UU": 0, "raise": 0, "with_mexpr": 0, "concrete_syntax": 0, "direct": 0,
             "strategy2_numeric": 0, "strategy2_on_duplicate_subtrees": 0, "strategy2_unknown": 0,
             "unencodable": 0, "wide_tree_cases": 0}
@@ -765,6 +775,7 @@ def run(run):
             tname = f"T_{gname}_{ti}"
             defs = f"Definition {tname} := {g_tree(t)}.\n"
             cs, ms = [], []
+            gcs, gms = [], []
             wide = is_wide(t)
             for (fi, how, ast, src, fobj, solver) in compiled:
                 ev = impl_evaluate(src if how == "concrete" else fobj, t, g)
@@ -795,6 +806,9 @@ def run(run):
                     cs.append(f"({tname}, {lit}, {g_out_tv(ev)}, {g_out_b(ck)}, {g_bool(sp[1] if cmp_spec else False)}, "
                               f"{g_bool(cmp_spec)})")
                     ms.append(meta)
+                    if has_mexpr(ast):
+                        gcs.append(cs[-1])
+                        gms.append(meta)
                 if not agrees_with_spec(ev, ck, sp):
                     spec_failures.append(meta)
                 if len(run.cov["samples"]) < 5 and fi == ti:
@@ -807,6 +821,13 @@ def run(run):
                 else:
                     shards.append((CST_DEF + defs, cs))
                     smeta.append(ms)
+            if gcs:
+                if gshards and len(gshards[-1][1]) + len(gcs) <= 150:
+                    gshards[-1] = (gshards[-1][0] + defs, gshards[-1][1] + gcs)
+                    gmeta[-1] = gmeta[-1] + gms
+                else:
+                    gshards.append((CST_DEF + defs, gcs))
+                    gmeta.append(gms)
 
         # ---- second strategy (eliminate_quantifiers + one validity query): every directly built
         # formula of this grammar wrapped in a meaning-preserving numeric quantifier, on every tree;
@@ -920,6 +941,32 @@ def run(run):
             corr_bad.append(smeta[k][i])
     except RuntimeError as e:
         run.violation({"kind": "correspondence-not-evaluable", "obligation": "Eval.v cases",
+                       "error": str(e)[-2500:]}, found_input=False)
+
+    # ---- hypotheses of C03_eval_correct_mexpr on the generated match-expression cases ----
+    # (non-vacuity at scale: how many generated cases lie inside the proved fragment; on those the
+    # theorem + the correspondence predict a definite verdict equal to the specification's)
+    try:
+        ghold, gdt = lib.coq_run_shards("c03g", GUARD_IMPORTS, GUARD_DEF, gshards)
+        n_mexpr = sum(len(ms) for ms in gmeta)
+        inside = [gmeta[k][i] for (k, i) in ghold]
+        run.cov["mexpr_theorem_guard"] = {"mexpr_cases": n_mexpr, "guard_holds": len(inside),
+                                          "coq_seconds": round(gdt, 1)}
+        print(f"[C03] match-expression cases={n_mexpr} inside the guard of C03_eval_correct_mexpr={len(inside)}",
+              flush=True)
+        if n_mexpr and not inside:
+            run.violation({"kind": "no generated match-expression case satisfies the hypotheses of "
+                                   "C03_eval_correct_mexpr", "obligation": "harness/c03.py MEXPRS / mexpr_guard"},
+                          found_input=False)
+        for m in inside:
+            if not agrees_with_spec(m["evaluate"], m["check"], m["spec"]):
+                run.violation({"kind": "a case inside the guard of C03_eval_correct_mexpr departs from the specification",
+                               "witness": {k: m[k] for k in ("grammar", "tree", "input", "formula", "source", "how")},
+                               "evaluate": m["evaluate"], "check": m["check"], "spec": m["spec"],
+                               "theorem": "Props/C03.v C03_eval_correct_mexpr_atoms + correspondence"})
+                break
+    except RuntimeError as e:
+        run.violation({"kind": "guard-not-evaluable", "obligation": "EvalMexprCheck.v mexpr_guard",
                        "error": str(e)[-2500:]}, found_input=False)
 
     # ---- classification ----
